@@ -14,6 +14,7 @@
 -/
 import TE.Driver.Fam
 import TE.Model.Agg
+import TE.Model.Fams
 import TE.Spec.Agg
 namespace TE.Driver
 open TE TE.Agg
@@ -75,8 +76,7 @@ def famMean (_ : Args) : Except String Fam := pure {
   stat := fun a => do
     let i ← liftP (a.tensor "input")
     let w ← aggWeight a "weight" i
-    let (s, t) ← meanUpdate i.data w
-    pure [[s], [t]]
+    Fams.meanStat (i.data, w)
   outA := fun p => .ok (showScalarX (.val (meanCompute (part0 p 0) (part0 p 1)))) }
 
 def fnMean (a : Args) : Except Err String := do
@@ -88,7 +88,7 @@ def famSum (_ : Args) : Except String Fam := pure {
   stat := fun a => do
     let i ← liftP (a.tensor "input")
     let w ← aggWeight a "weight" i
-    pure [[← sumUpdate i.data w]]
+    Fams.sumStat (i.data, w)
   outA := fun p => .ok (showScalarX (.val (part0 p 0))) }
 
 /-! ### Max / Min -/
@@ -175,8 +175,9 @@ def famMSE (cfg : Args) : Except String Fam := do
     stat := fun a => do
       if !ok then throw .value
       let (xc, tc, n, two, w) ← mseArgs a
-      let (sse, sw) := mseUpdate w xc tc n
-      pure [sse, [sw], [if two then 1 else 0]]
+      -- typed family of arity `d = #columns` (TE/Model/Fams.lean) + the arity marker of this adapter
+      let p ← Fams.mseStat xc.length ⟨xc, tc, n, w⟩
+      pure (p ++ [[if two then 1 else 0]])
     outA := fun p =>
       if !ok then .error .value else
       let two := part0 p 2 != 0
@@ -200,9 +201,10 @@ def famR2 (cfg : Args) : Except String Fam := do
       if i.ndim ≥ 3 || t.ndim ≥ 3 then throw .value
       if i.shape != t.shape then throw .value
       match asCols i, asCols t with
-      | some (xc, n, two), some (tc, _, _) =>
-        let (sso, so, rss) := r2Update xc tc
-        pure [sso, so, rss, [(n : Q)], [if two then 1 else 0]]
+      | some (xc, n, two), some (tc, _, _) => do
+        -- typed family of arity `d = #columns` (TE/Model/Fams.lean) + the arity marker of this adapter
+        let p ← Fams.r2Stat xc.length ⟨xc, tc, n, none⟩
+        pure (p ++ [[if two then 1 else 0]])
       | _, _ => throw .other
     outA := fun q =>
       match mo with
@@ -316,8 +318,7 @@ def famBne (cfg : Args) : Except String Fam := do
   pure {
     stat := fun a => do
       let (x, t, w, _) ← bneArgs a nt fl
-      let r := bneRows fl x t w
-      pure [r.map (·.1), r.map (·.2.2), r.map (·.2.1)]
+      Fams.bneStat lnF expF fl nt ⟨x, t, w⟩
     outA := fun p =>
       let ce := part p 0 nt; let ex := part p 1 nt; let pos := part p 2 nt
       if ex.any (· == 0) then .ok "0:" else
@@ -325,7 +326,8 @@ def famBne (cfg : Args) : Except String Fam := do
 
 /-! ### perplexity (end values evaluated with doubles) -/
 
-def pplArgs (a : Args) (ignore : Option Int) : Except Err (Q × Q) := do
+/-- shape checks of `_perplexity_input_check`; the batch as `(vocab, logit rows, labels)` -/
+def pplBatch (a : Args) (ignore : Option Int) : Except Err (Nat × Mat × List Int) := do
   let i ← liftP (a.tensor "input"); let t ← liftP (a.tensor "target")
   if t.ndim != 2 then throw .value
   if i.ndim != 3 then throw .value
@@ -336,6 +338,10 @@ def pplArgs (a : Args) (ignore : Option Int) : Except Err (Q × Q) := do
   let tg ← liftP (t.data.mapM fun q => match qToInt? q with | some z => .ok z | none => .error "label")
   -- negative labels that are not ignored index from the end in torch: outside the modelled contract
   if (pplTokens rows tg ignore).any (fun p => decide (p.2 < 0)) then throw .other
+  pure (v, rows, tg)
+
+def pplArgs (a : Args) (ignore : Option Int) : Except Err (Q × Q) := do
+  let (v, rows, tg) ← pplBatch a ignore
   pplUpdate expF lnF v rows tg ignore
 
 def ignoreOf (a : Args) : Except String (Option Int) :=
@@ -352,7 +358,7 @@ def fnPerplexity (a : Args) : Except Err String := do
 def famPerplexity (cfg : Args) : Except String Fam := do
   let ig ← ignoreOf cfg
   pure {
-    stat := fun a => do let (s, n) ← pplArgs a ig; pure [[s], [n]]
+    stat := fun a => do let (v, rows, tg) ← pplBatch a ig; Fams.pplStat expF lnF v ig (rows, tg)
     outA := fun p => if part0 p 1 = 0 then .ok "0:" else .ok (showScalarX (pplCompute expF (part0 p 0) (part0 p 1))) }
 
 /-! ### Throughput -/
